@@ -1,0 +1,19 @@
+//go:build verif
+
+package debug
+
+import "github.com/goghcrow/yae/val"
+
+// VerifEntry is a read-only view of one recorded (value, column) pair for the verification harness in /verif.
+type VerifEntry struct {
+	V   *val.Val
+	Col int
+}
+
+func (r *Record) VerifEntries() []VerifEntry {
+	xs := make([]VerifEntry, len(r.vs))
+	for i, v := range r.vs {
+		xs[i] = VerifEntry{v.v, v.col}
+	}
+	return xs
+}
